@@ -132,6 +132,7 @@ type ContractSet struct {
 	Axioms []*Axiom
 	Types  map[string]*TypeContract
 	Files  []string
+	Lemmas []*Lemma
 	// mechanical scan results
 	Trusted []string
 }
@@ -141,7 +142,7 @@ func NewContractSet() *ContractSet {
 }
 
 var clauseKeywords = map[string]bool{
-	"func": true, "extern": true, "spec": true, "axiom": true, "type": true,
+	"func": true, "extern": true, "spec": true, "axiom": true, "type": true, "lemma": true,
 	"requires": true, "ensures": true, "loop": true, "nullable": true, "at": true,
 	"ghost": true, "assigns": true, "modular": true, "inline": true, "trusted": true,
 	"mode": true, "alloc_bound": true, "pure": true, "protected_by": true, "immutable": true,
@@ -279,6 +280,17 @@ func (cs *ContractSet) ParseContractFile(path string, pkgPath string) error {
 			sf.File, sf.Line, sf.Pkg = path, l.no, pkgPath
 			cs.Specs[sf.Name] = sf
 			lastSpec = sf
+		case "lemma":
+			// lemma [tag] forall x T, ... :: body   (proved by SMT; see bmain.go RunLemma)
+			cur, curType = nil, nil
+			c, err := mkClause(rest)
+			if err != nil {
+				return err
+			}
+			if c.Tag == "" {
+				return fmt.Errorf("%s:%d: lemma needs a [tag]", path, l.no)
+			}
+			cs.Lemmas = append(cs.Lemmas, &Lemma{Tag: c.Tag, Clause: c, Pkg: pkgPath})
 		case "axiom":
 			cur, curType = nil, nil
 			k := strings.Index(rest, ":")
